@@ -323,12 +323,29 @@ pub fn c11(a: &Args) {
                     lg.config = c;
                     catch(|| lg.lint(&make_doc(text, lang)).iter().map(lint_digest).collect())
                 };
-                let (re, ra, rb) = (run(&e_set), run(&a_set), run(&b_set));
-                // the same E again after the partitions: the cache is warm now
+                // the long-lived linter sees the three configurations in a random order (a rule may be
+                // switched on after the text has been linted with it off, or the other way round) ...
+                let order = r.below(3);
+                let (re, ra, rb);
+                match order {
+                    0 => { re = run(&e_set); ra = run(&a_set); rb = run(&b_set); }
+                    1 => { ra = run(&a_set); rb = run(&b_set); re = run(&e_set); }
+                    _ => { rb = run(&b_set); re = run(&e_set); ra = run(&a_set); }
+                }
+                // ... then the same E again: the cache is warm now
                 let re2 = run(&e_set);
-                if let (Ok(e), Ok(a), Ok(b), Ok(e2)) = (re, ra, rb, re2) {
-                    evs.push(json!({"ev": "Parts", "text": text, "lang": lang, "ne": e_set.len(), "na": a_set.len(),
-                        "e": e, "a": a, "b": b, "e2": e2}));
+                drop(run);
+                // reference: a linter that has never linted anything, under E
+                let rref: Result<Vec<String>, String> = catch(|| {
+                    let mut c = LintGroupConfig::default();
+                    for nme in &names2 { c.set_rule_enabled(nme, false); }
+                    for nme in &e_set { c.set_rule_enabled(nme.as_str(), true); }
+                    let mut fresh = LintGroup::new_curated(FstDictionary::curated(), Dialect::American).with_lint_config(c);
+                    fresh.lint(&make_doc(text, lang)).iter().map(lint_digest).collect()
+                });
+                if let (Ok(e), Ok(a), Ok(b), Ok(e2), Ok(fr)) = (re, ra, rb, re2, rref) {
+                    evs.push(json!({"ev": "Parts", "text": text, "lang": lang, "ne": e_set.len(), "na": a_set.len(), "order": order,
+                        "e": e, "a": a, "b": b, "e2": e2, "fresh": fr}));
                 }
                 evs
             });
